@@ -692,14 +692,14 @@ def signature(wm, it, side="r", args=None):
         elif f.kind == "magic":
             out.append(("magic", f.size))
         elif f.net_zero:
-            out.append(("peek", f.size, f.name if f.public else "_"))
+            out.append(("peek", f.size, f.name if f.public else "~" + f.name))
         elif f.cond:
-            out.append(("cond", f.size, f.name if f.public else "_"))
+            out.append(("cond", f.size, f.name if f.public else "~" + f.name))
         elif f.size is None:
-            out.append(("var", f.name if f.public else "_", f.elem))
+            out.append(("var", f.name if f.public else "~" + f.name, f.elem))
         else:
             e = f.endian if (f.endian and f.size and f.size > 1) else None
-            out.append(("f", f.size, f.name if f.public else "_") + ((e,) if e else ()))
+            out.append(("f", f.size, f.name if f.public else "~" + f.name) + ((e,) if e else ()))
     return out
 
 
